@@ -10,6 +10,7 @@ behaviour over histories are not decided.
 import re
 
 from kvstatic import flow, rt, util
+from kvstatic.facts import strip_generics as facts_strip
 
 MANIFEST = {
     'text': 'Decides table agreement between the two sibling implementations of filter semantics (metadata_filter::matches* '
@@ -128,6 +129,176 @@ def maintenance_pairing(ctx, prog, rid):
                  ('write at %s can reach an Ok return without touching the inverted index' % [b.loc_of(w) for w in bad[:3]]) if bad or not mb else
                  '%d write sites, %d maintenance calls' % (len(set(wblocks)), len(mb)))
     ctx.floor(rid, 'functions writing document metadata / liveness', n_w, 7, 'insert, update_metadata, delete, batch_delete, compact_tombstones, 2 constructors, recovery')
+
+
+class _NoEval(Exception):
+    pass
+
+
+_INT_BITS = {'u8': 8, 'u16': 16, 'u32': 32, 'u64': 64, 'u128': 128, 'usize': 64, 'i8': 8, 'i16': 16, 'i32': 32, 'i64': 64, 'i128': 128, 'isize': 64}
+
+
+def eval_pure(prog, body, args, depth=0):
+    """Value-level evaluation of the MIR of a small pure function on concrete arguments (ints, bools, f64 as Python floats = IEEE doubles): statements use / bin /
+    un / cast / aggregate, terminators goto / switch / assert / return, calls to the f64 bit accessors and to functions of the analysed crates (recursively).
+    Nothing of /repo is executed.  Anything outside this fragment raises _NoEval (the caller fails closed)."""
+    import struct
+    if depth > 4:
+        raise _NoEval('call depth')
+    env = {i + 1: v for i, v in enumerate(args)}
+
+    def ty_of(op):
+        if op.get('k') == 'c':
+            return op.get('ty', '')
+        pl = op['pl']
+        return body.locals[pl['l']] if not pl.get('p') else ''
+
+    def wrap(v, ty):
+        if ty in _INT_BITS and isinstance(v, int) and not isinstance(v, bool):
+            v &= (1 << _INT_BITS[ty]) - 1
+            if ty.startswith('i') and v >> (_INT_BITS[ty] - 1):
+                v -= 1 << _INT_BITS[ty]
+        return v
+
+    def place(pl):
+        if pl['l'] not in env:
+            raise _NoEval('read of unset local _%d' % pl['l'])
+        v = env[pl['l']]
+        for e in pl.get('p') or []:
+            if e == '*':
+                continue
+            if isinstance(e, str) and isinstance(v, tuple):
+                m = re.search(r'\.(\d+)$', e)
+                if m and int(m.group(1)) < len(v):
+                    v = v[int(m.group(1))]
+                    continue
+            raise _NoEval('projection %s' % (e,))
+        return v
+
+    def operand(op):
+        if op.get('k') == 'c':
+            ty = op.get('ty', '')
+            if 'fbits' in op:
+                return struct.unpack('<d', struct.pack('<Q', op['fbits']))[0] if op.get('fsize') == 64 else struct.unpack('<f', struct.pack('<I', op['fbits']))[0]
+            if ty in ('f64', 'f32'):
+                try:
+                    return float(op.get('v', '')[:-3].replace('_', ''))
+                except ValueError:
+                    raise _NoEval('float constant %s' % op.get('v'))
+            if ty == 'bool':
+                return bool(op.get('int'))
+            if 'int' in op:
+                return wrap(op['int'], ty)
+            raise _NoEval('constant %s' % op.get('v'))
+        if op.get('k') in ('cp', 'mv'):
+            return place(op['pl'])
+        raise _NoEval('operand %s' % op.get('k'))
+
+    def binop(o, a, b, ty):
+        cmpf = {'Eq': lambda: a == b, 'Ne': lambda: a != b, 'Lt': lambda: a < b, 'Le': lambda: a <= b, 'Gt': lambda: a > b, 'Ge': lambda: a >= b}
+        if o in cmpf:
+            return cmpf[o]()
+        if isinstance(a, float) or isinstance(b, float):
+            f = {'Add': lambda: a + b, 'Sub': lambda: a - b, 'Mul': lambda: a * b}.get(o)
+            if f is None:
+                raise _NoEval('float op %s' % o)
+            return f()
+        base = o.replace('WithOverflow', '').replace('Unchecked', '')
+        f = {'Add': lambda: a + b, 'Sub': lambda: a - b, 'Mul': lambda: a * b, 'BitOr': lambda: a | b, 'BitAnd': lambda: a & b, 'BitXor': lambda: a ^ b,
+             'Shl': lambda: a << (b & 127), 'Shr': lambda: a >> (b & 127)}.get(base)
+        if f is None:
+            raise _NoEval('integer op %s' % o)
+        if isinstance(a, bool) and isinstance(b, bool) and base in ('BitOr', 'BitAnd', 'BitXor'):
+            return bool(f())
+        r = f()
+        if o.endswith('WithOverflow'):
+            return (wrap(r, ty), wrap(r, ty) != r)
+        return wrap(r, ty)
+
+    def rvalue(rv, dst_ty):
+        k = rv['k']
+        if k == 'use':
+            return operand(rv['a'])
+        if k == 'bin':
+            a, b = operand(rv['a']), operand(rv['b'])
+            return binop(rv['op'], a, b, ty_of(rv['a']) or dst_ty)
+        if k == 'un':
+            a = operand(rv['a'])
+            if rv['op'] == 'Not':
+                return (not a) if isinstance(a, bool) else wrap(~a, ty_of(rv['a']) or dst_ty)
+            if rv['op'] == 'Neg':
+                return -a if isinstance(a, float) else wrap(-a, dst_ty)
+            raise _NoEval('unary %s' % rv['op'])
+        if k == 'cast':
+            a = operand(rv['a'])
+            ck, ty = rv.get('ck', ''), rv.get('ty', '')
+            if ck == 'IntToInt':
+                return wrap(int(a), ty)
+            if ck == 'IntToFloat':
+                return float(a)
+            if ck == 'Transmute' and isinstance(a, float) and ty == 'u64':
+                return struct.unpack('<Q', struct.pack('<d', a))[0]
+            if ck == 'Transmute' and isinstance(a, int) and ty == 'f64':
+                return struct.unpack('<d', struct.pack('<Q', a))[0]
+            raise _NoEval('cast %s' % ck)
+        if k == 'agg' and rv.get('ak') in ('adt', 'tuple'):
+            return tuple(operand(o) for o in rv['ops'])
+        raise _NoEval('rvalue %s' % k)
+
+    def call(t):
+        fn = (t['f'].get('fn') or {}) if t['f'].get('k') == 'c' else {}
+        name = facts_strip(fn.get('r') or fn.get('o') or '')
+        a = [operand(x) for x in t.get('args', [])]
+        if name.endswith('f64::to_bits') and len(a) == 1 and isinstance(a[0], float):
+            return struct.unpack('<Q', struct.pack('<d', a[0]))[0]
+        if name.endswith('f64::from_bits') and len(a) == 1:
+            return struct.unpack('<d', struct.pack('<Q', a[0]))[0]
+        if name.endswith('f64::is_nan') and len(a) == 1:
+            return a[0] != a[0]
+        if name.endswith('f64::is_sign_negative') and len(a) == 1:
+            return bool(struct.unpack('<Q', struct.pack('<d', a[0]))[0] >> 63)
+        if name.endswith('f64::abs') and len(a) == 1:
+            return abs(a[0])
+        cb = prog.resolve_local(name)
+        if cb is not None and cb.kind in ('Fn', 'AssocFn'):
+            return eval_pure(prog, cb, a, depth + 1)
+        raise _NoEval('call to %s' % (name or 'an indirect callee'))
+
+    bb, steps = 0, 0
+    while True:
+        steps += 1
+        if steps > 400:
+            raise _NoEval('step limit')
+        blk = body.blocks[bb]
+        for st in blk['s']:
+            if 'rv' not in st:
+                continue
+            if st['pl'].get('p'):
+                raise _NoEval('assignment to a projection')
+            env[st['pl']['l']] = rvalue(st['rv'], body.locals[st['pl']['l']])
+        t = blk['t']
+        k = t['k']
+        if k == 'return':
+            if 0 not in env:
+                raise _NoEval('return without a value')
+            return env[0]
+        if k in ('goto', 'falseedge', 'falseunwind', 'drop'):
+            bb = t['to']
+        elif k == 'assert':
+            if bool(operand(t['cond'])) != bool(t.get('expected', True)):
+                raise _NoEval('assertion fails (panic): %s' % t.get('msg', ''))
+            bb = t['to']
+        elif k == 'switch':
+            v = operand(t['on'])
+            v = int(v) if isinstance(v, bool) else v
+            bb = next((tg for val, tg in t['tg'] if val == v), t['else'])
+        elif k == 'call':
+            if t.get('dest', {}).get('p') or 'to' not in t:
+                raise _NoEval('call shape')
+            env[t['dest']['l']] = call(t)
+            bb = t['to']
+        else:
+            raise _NoEval('terminator %s' % k)
 
 
 def run(ctx, prog):
